@@ -328,49 +328,85 @@ def fields_written_only_in_resize(ck, rule):
                                 ck.check(okg, rule, fm, "the normaliser only fills format fields that are still None", "%s under %s" % (src(s)[:60], src(tst)), s)
 
 
+def _none_eval(test, pattern):
+    """truth of a test under an assignment {param: is_none} ; None when the test does not only talk about None-ness"""
+    if isinstance(test, ast.UnaryOp) and isinstance(test.op, ast.Not):
+        v = _none_eval(test.operand, pattern)
+        return None if v is None else (not v)
+    if isinstance(test, ast.BoolOp):
+        vals = [_none_eval(v, pattern) for v in test.values]
+        if isinstance(test.op, ast.And):
+            if any(v is False for v in vals):
+                return False
+            return True if all(v is True for v in vals) else None
+        if any(v is True for v in vals):
+            return True
+        return False if all(v is False for v in vals) else None
+    if isinstance(test, ast.Compare) and len(test.ops) == 1 and isinstance(test.comparators[0], ast.Constant) and test.comparators[0].value is None:
+        d = dotted(test.left)
+        if d in pattern and isinstance(test.ops[0], (ast.Is, ast.IsNot)):
+            return pattern[d] if isinstance(test.ops[0], ast.Is) else (not pattern[d])
+    return None
+
+
 def init_size_relation(ck, rule):
-    """C06.R1 / C02.R3: _init_size and resize derive the third size by n_word = n_int + n_frac + [signed]."""
+    """C06.R1 / C02.R3: whenever n_int and exactly one of n_word / n_frac are given, _init_size and resize derive the third by
+    n_word = n_int + n_frac + [signed] with the signedness in force (decided per path over the None-patterns its guards admit)."""
     prog = ck.prog
+    from itertools import product as _prod
     for q in ("objects.Fxp._init_size", "objects.Fxp.resize"):
         f = prog.func(q)
-        hits = 0
-        for n in ast.walk(f.node):
-            if isinstance(n, ast.If):
-                # chain: if n_word is None and n_frac is not None and n_int is not None: n_word = ...
-                for br in _elif_chain(n):
-                    which = _missing_one(br.test)
-                    if which is None:
-                        continue
-                    for s in br.body:
-                        if isinstance(s, ast.Assign) and len(s.targets) == 1 and dotted(s.targets[0]) == which:
-                            hits += 1
-                            try:
-                                t = mkterm(s.value, rename=IDENT, bool_names=BOOLS)
-                            except NotATerm as e:
-                                ck.unsure(rule, f, "derived size is a term", s, str(e))
-                                continue
-                            sg = Term.bvar("self.signed")
-                            ni, nf, nw = Term.var("n_int"), Term.var("n_frac"), Term.var("n_word")
-                            o = {"n_word": ni + nf + sg, "n_frac": nw - ni - sg, "n_int": nw - nf - sg}[which]
-                            ck.saw(terms=1)
-                            ck.check(t == o, rule, f, "when n_int and one other size are given, %s follows arithmetically (%s)" % (which, o.show()),
-                                     "%s = %s, expected %s" % (which, t.show(), o.show()), s, {"witness": witness(t, o)})
-        if hits < 2:
-            ck.bad(rule, f, "%s reconciles n_int with the other two sizes (both directions)" % f.name, "only %d derivation(s) of a missing size from n_int found" % hits, f.node,
-                   "n_int given with one other size must determine the third")
-    # in _init_size the relation must use the *resolved* signedness: self.signed assigned before on every path
-    f = prog.func("objects.Fxp._init_size")
-    for pf in fpaths(prog, f):
-        if pf.end == "raise":
-            continue
-        for st in pf.stores:
-            if st.path in ("n_word", "n_frac") and isinstance(peel(st.value)[0], ast.BinOp):
-                if "self.signed" not in pf.env and True:
-                    pass
-                # value after substitution must not mention the raw 'signed' parameter as the sign bit while it may be None
-                names = {dotted(n) for n in ast.walk(st.value) if isinstance(n, (ast.Name, ast.Attribute))}
-                if "signed" in names and "self.signed" not in [s2.path for s2 in pf.stores]:
-                    ck.bad(rule, f, "the sign bit in the size relation is the resolved signedness", "%s = %s" % (st.path, src(st.raw_value)), st.stmt)
+        pfs = fpaths(prog, f)
+        ck.saw(f, paths=len(pfs))
+        derived = {"n_word": 0, "n_frac": 0}
+        failed = False
+        for pf in pfs:
+            if pf.end == "raise" or failed:
+                continue
+            # dtype route of resize re-binds all sizes from the parser: not a None-pattern of the parameters
+            if any(isinstance(st.value, ast.Subscript) and isinstance(st.value.value, ast.Call) and isinstance(st.value.value.func, ast.Attribute) and st.path in ("n_word", "n_frac", "signed") for st in pf.stores):
+                continue
+            for vals in _prod((True, False), repeat=3):
+                pattern = dict(zip(("n_word", "n_frac", "n_int"), vals))
+                if pattern["n_int"] or pattern["n_word"] == pattern["n_frac"]:
+                    continue      # need: n_int given and exactly one other size given
+                if any(_none_eval(g[0], pattern) is (not g[1]) for g in pf.guards):
+                    continue      # pattern contradicts this path
+                missing = "n_word" if pattern["n_word"] else "n_frac"
+                sts = [st for st in pf.stores if st.path == missing and st.depth == 0]
+                if not sts:
+                    ck.bad(rule, f, "when n_int and one other size are given, the third follows arithmetically", "%s: %s stays None although n_int and %s are given (guards %s)" % (f.name, missing, "n_frac" if missing == "n_word" else "n_word", [(src(g[0])[:40], g[1]) for g in pf.guards if "None" in src(g[0])][:6]), f.node,
+                           "the given integer length is ignored")
+                    failed = True
+                    break
+                st = sts[-1]
+                asg = guard_assignment(pf.guards, rename=IDENT)
+                try:
+                    t = _T(st.value, BOOLS).subst(asg)
+                    # signedness in force when the value is derived
+                    sgexpr = None
+                    for k_, o in pf.order:
+                        if k_ == "store" and o is st:
+                            break
+                        if k_ == "store" and o.path == "self.signed":
+                            sgexpr = o.value
+                    sg = mkbool(sgexpr, rename=IDENT, bool_names=BOOLS) if sgexpr is not None else Term.bvar("self.signed")
+                    sg = sg.subst(asg)
+                except NotATerm as e:
+                    ck.unsure(rule, f, "derived size is a term", st.stmt, str(e))
+                    continue
+                ni, nf, nw = Term.var("n_int"), Term.var("n_frac"), Term.var("n_word")
+                o = {"n_word": ni + nf + sg, "n_frac": nw - ni - sg}[missing]
+                ck.saw(terms=1)
+                if t != o:
+                    ck.bad(rule, f, "when n_int and one other size are given, %s follows arithmetically (%s) with the signedness in force" % (missing, {"n_word": "n_int + n_frac + [signed]", "n_frac": "n_word - n_int - [signed]"}[missing]),
+                           "%s = %s, expected %s" % (missing, t.show(), o.show()), st.stmt, {"witness": witness(t, o)})
+                    failed = True
+                    break
+                derived[missing] += 1
+        if not failed:
+            ck.check(derived["n_word"] > 0 and derived["n_frac"] > 0, rule, f, "%s derives the missing size from n_int in both directions on every admitting path (%d / %d path-cases)" % (f.name, derived["n_word"], derived["n_frac"]),
+                     "derivations found: %s" % derived, f.node, "n_int given with one other size must determine the third")
 
 
 def _elif_chain(n):
